@@ -10,3 +10,10 @@ MUTANTS = [
     {'name': 'kern duration code wrong', 'file': 'partitura/io/exportkern.py', 'old': '    "eighth": "8",', 'new': '    "eighth": "16",', 'expect': 'F5d'}]
 
 NEUTRALS = []
+
+# changes made by sub-agents that were given only the property text (see /verif/seeded/<id>/): each must stay reported
+SEEDED = [
+    {'name': 'seeded change C19-r2', 'seed': 'C19-r2', 'expect': '|ITER-local|'},
+    {'name': 'seeded change C19', 'seed': 'C19', 'expect': '|F10-trunc|'},
+]
+MUTANTS += SEEDED
